@@ -15,6 +15,7 @@
 //!  4. `seed`:  each menu compilation in a fresh process under hash seeds 0..S−1, twice in-process.
 //! Oracle everywhere: bytes equal the fresh-process, counter-0, seed-0, single-threaded reference.
 
+mod family;
 mod menu;
 
 use serde_json::{json, Value};
@@ -145,6 +146,9 @@ fn worker_main(job: &Value) -> Value {
         "hist" => worker_hist(job, &refs),
         "seed" => worker_seed(job),
         "free" => worker_free(job, &refs),
+        "fam" => worker_fam(job),
+        "famlist" => json!({"names": family::family().into_iter().map(|f| f.name).collect::<Vec<_>>()}),
+        "fgap" => worker_fgap(job),
         "dump" => {
             let item = job["item"].as_u64().unwrap() as usize;
             match compile_guarded(item) {
@@ -563,6 +567,186 @@ fn worker_free(job: &Value, refs: &Value) -> Value {
            "counter_regressions": regressions.load(Ordering::Relaxed), "ms": t0.elapsed().as_secs_f64() * 1e3})
 }
 
+
+// =============================================================================================
+// family batches (audit round; values in family.rs)
+// =============================================================================================
+
+/// outcome of one family value: bytes, or a line-number-free description of the panic (a value that
+/// fails the same way under every perturbation is deterministic; only a CHANGE of outcome counts)
+fn fam_outcome(f: &family::Fam) -> Result<Vec<u8>, String> {
+    guard(|| (f.f)()).map_err(|p| {
+        if p.message.contains("corpus font") {
+            // the harness could not read an input file: never a verdict
+            IO_FAILURE.with(|c| *c.borrow_mut() = Some(p.message.clone()));
+        }
+        format!("panic in {}", p.file)
+    })
+}
+
+thread_local! {
+    static IO_FAILURE: RefCell<Option<String>> = const { RefCell::new(None) };
+}
+
+fn io_failure() -> Option<String> {
+    IO_FAILURE.with(|c| c.borrow().clone())
+}
+
+fn outcome_digest(r: &Result<Vec<u8>, String>) -> String {
+    match r {
+        Ok(b) => {
+            let d = bytes_digest(b);
+            format!("{}:{}:{}", d[0], d[1].as_str().unwrap_or(""), d[2].as_str().unwrap_or(""))
+        }
+        Err(e) => format!("failed:{e}"),
+    }
+}
+
+fn fam_order(kind: u64, n: usize) -> Vec<usize> {
+    match kind {
+        0 => (0..n).collect(),
+        1 => (0..n).rev().collect(),
+        _ => (0..n).step_by(2).chain((1..n).step_by(2)).collect(),
+    }
+}
+
+/// Compile every family value twice in this process, visiting them in the order `order`, after
+/// presetting the counter; returns the digest of both compilations and the allocation count.
+fn worker_fam(job: &Value) -> Value {
+    let fam = family::family();
+    let n = fam.len();
+    let preset = PRESETS[job["preset"].as_u64().unwrap_or(0) as usize];
+    let only = job.get("only").and_then(|v| v.as_u64()).map(|v| v as usize);
+    let t0 = Instant::now();
+    write_fonts::verif_hooks::set_counter(preset);
+    let mut d1 = vec![String::new(); n];
+    let mut d2 = vec![String::new(); n];
+    let mut allocs = vec![0u64; n];
+    let mut head = vec![String::new(); n];
+    let mut each_ms = vec![0.0f64; n];
+    for i in fam_order(job["order"].as_u64().unwrap_or(0), n) {
+        if only.map(|o| o != i).unwrap_or(false) {
+            continue;
+        }
+        CALLS.store(0, Ordering::Relaxed);
+        MODE.store(MODE_COUNT, Ordering::Relaxed);
+        let t1 = Instant::now();
+        let r1 = fam_outcome(&fam[i]);
+        each_ms[i] = (t1.elapsed().as_secs_f64() * 1e5).round() / 100.0;
+        MODE.store(MODE_OFF, Ordering::Relaxed);
+        allocs[i] = CALLS.load(Ordering::Relaxed);
+        let r2 = fam_outcome(&fam[i]);
+        d1[i] = outcome_digest(&r1);
+        d2[i] = outcome_digest(&r2);
+        if let Ok(b) = &r1 {
+            head[i] = hex(&b[..b.len().min(2)]);
+        }
+    }
+    if let Some(m) = io_failure() {
+        return json!({"machinery": format!("family batch: {m}")});
+    }
+    json!({"d1": d1, "d2": d2, "allocs": allocs, "head": head, "each_ms": each_ms, "ms": t0.elapsed().as_secs_f64() * 1e3,
+           "order": hash_order_probe()})
+}
+
+fn fam_run_with_gaps(f: &family::Fam, plan: &[u64]) -> (Result<Vec<u8>, String>, u64) {
+    write_fonts::verif_hooks::set_counter(0);
+    GAP_PLAN.with(|p| *p.borrow_mut() = plan.to_vec());
+    CALLS.store(0, Ordering::Relaxed);
+    MODE.store(MODE_GAPS, Ordering::Relaxed);
+    let r = fam_outcome(f);
+    MODE.store(MODE_OFF, Ordering::Relaxed);
+    (r, CALLS.load(Ordering::Relaxed))
+}
+
+/// Gap injection for the family values i with i % W == w: every assignment of the non-zero gap
+/// alphabet to one allocation point (and to two points when the value makes <= `pair_max`
+/// allocations), in lexicographic order. With "only"+"gaps" it replays one assignment.
+fn worker_fgap(job: &Value) -> Value {
+    let fam = family::family();
+    let n = fam.len();
+    let w = job["w"].as_u64().unwrap_or(0) as usize;
+    let ww = job["W"].as_u64().unwrap_or(1) as usize;
+    let pair_max = job["pair_max"].as_u64().unwrap_or(0);
+    let single_max = job["single_max"].as_u64().unwrap_or(u64::MAX);
+    let only = job.get("only").and_then(|v| v.as_u64()).map(|v| v as usize);
+    // the family reference digests travel in a file (too long for an environment string)
+    let frefs: Vec<String> = std::env::var("VERIF_C07_FREFS").ok().and_then(|p| std::fs::read_to_string(p).ok()).and_then(|s| serde_json::from_str(&s).ok()).unwrap_or_default();
+    let mut execs = 0u64;
+    let mut values = 0u64;
+    let mut values_pairs = 0u64;
+    let mut mismatches: Vec<Value> = vec![];
+    let mut mismatch_count = 0u64;
+    for i in 0..n {
+        if i % ww != w || only.map(|o| o != i).unwrap_or(false) {
+            continue;
+        }
+        let (reference, cnt) = fam_run_with_gaps(&fam[i], &[]);
+        execs += 1;
+        if frefs.get(i).map(|r| *r != outcome_digest(&reference)).unwrap_or(false) {
+            mismatch_count += 1;
+            if mismatches.len() < 4 {
+                mismatches.push(json!({"idx": i, "gaps": [], "what": format!("outcome {} differs from the reference {}", outcome_digest(&reference), frefs[i])}));
+            }
+            continue;
+        }
+        if cnt == 0 || cnt > single_max || reference.is_err() {
+            continue;
+        }
+        values += 1;
+        let mut try_plan = |nz: &[(usize, usize)]| {
+            let mut plan = vec![0u64; cnt as usize];
+            for (pos, g) in nz {
+                plan[*pos] = GAP_ALPHABET[*g];
+            }
+            let (r, c) = fam_run_with_gaps(&fam[i], &plan);
+            execs += 1;
+            let what = if r != reference {
+                Some(format!("outcome {} instead of {}", outcome_digest(&r), outcome_digest(&reference)))
+            } else if c != cnt {
+                Some(format!("{c} ObjectId allocations under gap injection, {cnt} without"))
+            } else {
+                None
+            };
+            if let Some(what) = what {
+                mismatch_count += 1;
+                if mismatches.len() < 4 && !mismatches.iter().any(|m| m["idx"] == json!(i)) {
+                    mismatches.push(json!({"idx": i, "gaps": nz.iter().map(|(p, g)| json!([p, g])).collect::<Vec<_>>(), "what": what}));
+                }
+            }
+        };
+        if let Some(gs) = job.get("gaps").and_then(|g| g.as_array()) {
+            let nz: Vec<(usize, usize)> = gs.iter().map(|x| (x[0].as_u64().unwrap() as usize, x[1].as_u64().unwrap() as usize)).collect();
+            if nz.iter().all(|(p, _)| (*p as u64) < cnt) {
+                try_plan(&nz);
+            }
+            continue;
+        }
+        let c = cnt as usize;
+        for p in 0..c {
+            for g in 1..GAP_ALPHABET.len() {
+                try_plan(&[(p, g)]);
+            }
+        }
+        if cnt <= pair_max {
+            values_pairs += 1;
+            for p in 0..c {
+                for q in p + 1..c {
+                    for g in 1..GAP_ALPHABET.len() {
+                        for h in 1..GAP_ALPHABET.len() {
+                            try_plan(&[(p, g), (q, h)]);
+                        }
+                    }
+                }
+            }
+        }
+    }
+    if let Some(m) = io_failure() {
+        return json!({"machinery": format!("family gap injection: {m}")});
+    }
+    json!({"execs": execs, "values": values, "values_with_pairs": values_pairs, "mismatches": mismatches, "mismatch_count": mismatch_count})
+}
+
 fn worker_seed(job: &Value) -> Value {
     let item = job["item"].as_u64().unwrap() as usize;
     let order = hash_order_probe();
@@ -580,6 +764,7 @@ struct Sup {
     exe: std::path::PathBuf,
     shim: std::path::PathBuf,
     refs_env: Mutex<String>,
+    frefs_env: Mutex<String>,
     timeout: Duration,
 }
 
@@ -589,6 +774,7 @@ impl Sup {
         let mut cmd = Command::new(&self.exe);
         cmd.env("VERIF_C07_WORKER", job.to_string())
             .env("VERIF_C07_REFS", self.refs_env.lock().unwrap().clone())
+            .env("VERIF_C07_FREFS", self.frefs_env.lock().unwrap().clone())
             .env("LD_PRELOAD", &self.shim)
             .env("VERIF_HASH_SEED", seed.to_string())
             .stdin(Stdio::null())
@@ -690,10 +876,18 @@ fn body(run: &Run, replay: Option<&Value>) {
         exe: std::env::current_exe().expect("current_exe"),
         shim,
         refs_env: Mutex::new("null".into()),
+        frefs_env: Mutex::new(String::new()),
         timeout: Duration::from_secs(run.tier.pick(240, 3600)),
     };
     let items = menu::menu();
     let n_items = items.len();
+    // workers are children of this process and inherit the tier the family list depends on
+    // (a replayed family case names the tier it was found in: the list index depends on it)
+    let tier_name: String = replay
+        .and_then(|c| c["tier"].as_str())
+        .map(|s| s.to_string())
+        .unwrap_or_else(|| if run.tier == Tier::Thorough { "thorough".into() } else { "quick".into() });
+    std::env::set_var("VERIF_C07_TIER", &tier_name);
 
     // ---- seam proof (machinery, not verdict) ------------------------------------------------
     let s_count: u64 = run.tier.pick(16, 256);
@@ -750,6 +944,75 @@ fn body(run: &Run, replay: Option<&Value>) {
     }
     *sup.refs_env.lock().unwrap() = Value::Object(refs.clone()).to_string();
     run.bound("menu", json!(menu_info));
+
+    // ---- family reference (seed 0, counter 0, forward order, first compilation) ----------------
+    // The supervisor only needs the names; building the list executes no code under test.
+    let fam_names: Vec<String> = family::family().into_iter().map(|f| f.name).collect();
+    let n_fam = fam_names.len();
+    let fam_ref_job = json!({"k":"fam","order":0,"preset":0});
+    let fam_ref = match sup.run_job(&fam_ref_job, 0) {
+        Ok(v) => v,
+        Err(e) => {
+            run.machinery_error(&format!("family reference: {e}"));
+            return;
+        }
+    };
+    let strs = |v: &Value| -> Vec<String> { v.as_array().map(|a| a.iter().map(|x| x.as_str().unwrap_or("").to_string()).collect()).unwrap_or_default() };
+    let frefs: Vec<String> = strs(&fam_ref["d1"]);
+    let fam_allocs: Vec<u64> = fam_ref["allocs"].as_array().map(|a| a.iter().map(|x| x.as_u64().unwrap_or(0)).collect()).unwrap_or_default();
+    if frefs.len() != n_fam || fam_allocs.len() != n_fam {
+        run.machinery_error("family reference job returned a list of the wrong length");
+        return;
+    }
+    let frefs_path = std::env::temp_dir().join(format!("c07-frefs-{}.json", std::process::id()));
+    if let Err(e) = std::fs::write(&frefs_path, json!(frefs).to_string()) {
+        run.machinery_error(&format!("cannot write {frefs_path:?}: {e}"));
+        return;
+    }
+    struct RemoveOnDrop(std::path::PathBuf);
+    impl Drop for RemoveOnDrop {
+        fn drop(&mut self) {
+            let _ = std::fs::remove_file(&self.0);
+        }
+    }
+    let _frefs_guard = RemoveOnDrop(frefs_path.clone());
+    *sup.frefs_env.lock().unwrap() = frefs_path.to_string_lossy().into_owned();
+    {
+        // what the family exercises, measured: sub-family sizes, how many graphs needed the repacking
+        // phases, how many values fail deterministically, how many distinct outputs there are
+        let heads = strs(&fam_ref["head"]);
+        let mut sizes: BTreeMap<String, u64> = BTreeMap::new();
+        let mut repacked = 0u64;
+        let mut unpackable = 0u64;
+        let mut failing = vec![];
+        for (i, name) in fam_names.iter().enumerate() {
+            *sizes.entry(name.split('[').next().unwrap_or("").to_string()).or_default() += 1;
+            if name.starts_with("pack") {
+                match heads[i].as_str() {
+                    "0100" => repacked += 1,
+                    "0000" => unpackable += 1,
+                    _ => {}
+                }
+            }
+            if frefs[i].starts_with("failed") && failing.len() < 12 {
+                failing.push(format!("{name}: {}", frefs[i]));
+            }
+        }
+        let distinct: HashSet<&String> = frefs.iter().collect();
+        run.bound("family_values", json!(sizes));
+        run.extra("family", json!({
+            "values": n_fam, "distinct_reference_outputs": distinct.len(),
+            "packgraph_packed_only_after_space_assignment_or_isolation": repacked,
+            "packgraph_not_packable": unpackable,
+            "allocations_total": fam_allocs.iter().sum::<u64>(),
+            "values_failing_identically_everywhere_sample": failing,
+            "reference_pass_ms": fam_ref["ms"],
+        }));
+        if distinct.len() * 2 < n_fam || repacked < 20 {
+            run.machinery_error(&format!("family is vacuous: {} distinct outputs of {} values, {} graphs reached the repacking phases", distinct.len(), n_fam, repacked));
+            return;
+        }
+    }
     for (i, it) in items.iter().enumerate() {
         if it.small && allocs[i] > 10 {
             run.machinery_error(&format!("menu item {} is marked small but makes {} allocations", it.name, allocs[i]));
@@ -760,6 +1023,21 @@ fn body(run: &Run, replay: Option<&Value>) {
     if let Some(case) = replay {
         replay_case(run, &sup, &items, case);
         return;
+    }
+
+    // the reference batch already holds one repetition per value
+    {
+        let d2 = strs(&fam_ref["d2"]);
+        for i in 0..n_fam {
+            if d2.get(i) != Some(&frefs[i]) {
+                run.violation(
+                    &format!("compile({}) bytes differ when repeated in the same process", fam_names[i]),
+                    &format!("{} compiled twice in the reference process (seed 0, counter 0): {} then {:?}", fam_names[i], frefs[i], d2.get(i)),
+                    json!({"job": {"k":"fam","order":0,"preset":0,"only":i}, "seed": 0, "tier": tier_name, "detail": {"rep": 1, "value": fam_names[i]}}),
+                );
+            }
+        }
+        run.evals(2 * n_fam as u64);
     }
 
     // ---- job list ---------------------------------------------------------------------------
@@ -830,11 +1108,38 @@ fn body(run: &Run, replay: Option<&Value>) {
         }
     }
     run.bound("hash_seeds", json!(s_count));
+    // (5) family batches: {seeds} x {visiting orders} at counter 0, {counter presets} x {orders} at
+    // seed 0 (the reference combination itself excluded), and gap injection in 16 slices
+    let fam_orders: u64 = run.tier.pick(2, 3);
+    for s in 0..s_count {
+        for o in 0..fam_orders {
+            if s == 0 && o == 0 {
+                continue;
+            }
+            jobs.push(Job { spec: json!({"k":"fam","order":o,"preset":0}), seed: s });
+        }
+    }
+    for p in 1..PRESETS.len() {
+        for o in 0..fam_orders {
+            jobs.push(Job { spec: json!({"k":"fam","order":o,"preset":p}), seed: 0 });
+        }
+    }
+    let fgap_workers = 16usize;
+    let pair_max: u64 = run.tier.pick(10, 20);
+    // values with more allocation points than this take part in the seed / history batches only
+    let single_max: u64 = run.tier.pick(100, 2000);
+    for w in 0..fgap_workers {
+        jobs.push(Job { spec: json!({"k":"fgap","w":w,"W":fgap_workers,"pair_max":pair_max,"single_max":single_max}), seed: 0 });
+    }
+    run.bound("family_batches", json!({"values": n_fam, "visiting_orders": fam_orders, "seeds": s_count, "counter_presets": PRESETS.len(),
+        "compilations_per_value_per_batch": 2, "gap_injection": {"single_gap": "every allocation point x {1,7,2^32}", "two_gaps_for_values_with_allocations_up_to": pair_max, "single_gap_for_values_with_allocations_up_to": single_max}}));
 
     // ---- run --------------------------------------------------------------------------------
     // longest jobs first (schedule searches), results keep job order
     let pairs: Vec<(Value, u64)> = jobs.iter().map(|j| (j.spec.clone(), j.seed)).collect();
+    let t_pool = Instant::now();
     let results = par_jobs(&sup, &pairs);
+    let pool_wall = t_pool.elapsed().as_secs_f64();
 
     let mut all: HashSet<u64> = HashSet::new();
     let mut nontrivial: HashSet<u64> = HashSet::new();
@@ -964,6 +1269,74 @@ fn body(run: &Run, replay: Option<&Value>) {
                     );
                 }
             }
+            "fam" => {
+                let p = spec["preset"].as_u64().unwrap_or(0) as usize;
+                let o = spec["order"].as_u64().unwrap_or(0);
+                let d1 = strs(&v["d1"]);
+                let d2 = strs(&v["d2"]);
+                if d1.len() != n_fam || d2.len() != n_fam {
+                    run.machinery_error("family batch returned a list of the wrong length");
+                    return;
+                }
+                run.evals(2 * n_fam as u64);
+                run.trans(2 * fam_allocs.iter().sum::<u64>());
+                run.count("family_batches", 1);
+                run.count("family_compilations", 2 * n_fam as u64);
+                seed_orders.insert(job.seed, v["order"].to_string());
+                for i in 0..n_fam {
+                    for (rep, d) in [&d1[i], &d2[i]].into_iter().enumerate() {
+                        let dg = digest_of(&("fam", i, job.seed, p, o, rep));
+                        all.insert(dg);
+                        nontrivial.insert(dg);
+                        if *d != frefs[i] {
+                            let id = if job.seed != 0 && rep == 0 {
+                                format!("compile({}) bytes depend on the hash seed", fam_names[i])
+                            } else if job.seed != 0 || (p == 0 && rep == 1) {
+                                format!("compile({}) bytes differ when repeated in the same process", fam_names[i])
+                            } else {
+                                format!("compile({}) bytes depend on the counter value / prior compilations", fam_names[i])
+                            };
+                            run.violation(
+                                &id,
+                                &format!("{} under VERIF_HASH_SEED={}, counter preset {}, visiting order {} ({} compilation): {} vs reference {}", fam_names[i], job.seed, PRESETS[p], o, ["first", "second"][rep], d, frefs[i]),
+                                json!({"job": {"k":"fam","order":o,"preset":p,"only":i}, "seed": job.seed, "tier": tier_name, "detail": {"rep": rep, "value": fam_names[i]}}),
+                            );
+                        }
+                    }
+                }
+                if run.counter("samples_fam") < 1 && job.seed == 2 {
+                    run.count("samples_fam", 1);
+                    run.sample(json!({"kind":"family batch","seed":job.seed,"order":o,"preset":PRESETS[p].to_string(),"values":n_fam,"first_value":fam_names[0],"digest":d1[0],"batch_ms":v["ms"]}));
+                }
+            }
+            "fgap" => {
+                let execs = v["execs"].as_u64().unwrap_or(0);
+                run.evals(execs);
+                run.count("family_gap_assignments", execs);
+                run.count("family_values_gap_injected", v["values"].as_u64().unwrap_or(0));
+                run.count("family_values_gap_injected_pairs", v["values_with_pairs"].as_u64().unwrap_or(0));
+                let dg = digest_of(&("fgap", spec.to_string(), execs));
+                all.insert(dg);
+                nontrivial.insert(dg);
+                for m in v["mismatches"].as_array().cloned().unwrap_or_default() {
+                    let i = m["idx"].as_u64().unwrap_or(0) as usize;
+                    let no_gap = m["gaps"].as_array().map(|a| a.is_empty()).unwrap_or(true);
+                    let id = if no_gap {
+                        format!("compile({}) bytes depend on the counter value / prior compilations", fam_names[i])
+                    } else {
+                        format!("compile({}) bytes depend on foreign gaps in the ObjectId counter", fam_names[i])
+                    };
+                    let mut rjob = json!({"k":"fgap","w":0,"W":1,"pair_max":0,"only":i});
+                    if !no_gap {
+                        rjob["gaps"] = m["gaps"].clone();
+                    }
+                    run.violation(
+                        &id,
+                        &format!("{}: {} with gaps (allocation index, alphabet index) {} ({} failing assignments in this slice)", fam_names[i], m["what"].as_str().unwrap_or(""), m["gaps"], v["mismatch_count"]),
+                        json!({"job": rjob, "seed": job.seed, "tier": tier_name, "detail": m}),
+                    );
+                }
+            }
             "seed" => {
                 let it = spec["item"].as_u64().unwrap() as usize;
                 run.evals(2);
@@ -1013,6 +1386,7 @@ fn body(run: &Run, replay: Option<&Value>) {
     }
     // ---- auxiliary free-running pass (sampling) ----------------------------------------------
     // Runs after the job pool so that its threads really run in parallel. Fixed thread/round counts.
+    let t_free = Instant::now();
     {
         let threads: u64 = 32;
         let (r_same, r_mix): (u64, u64) = run.tier.pick((250, 1000), (4000, 16000));
@@ -1070,7 +1444,9 @@ fn body(run: &Run, replay: Option<&Value>) {
             "counter_regressions_observed": regressions, "worker_wall_ms": ms.round(),
         }));
     }
+    run.extra("phase_wall_s", json!({"job_pool": (pool_wall * 10.0).round() / 10.0, "free_running_pass": (t_free.elapsed().as_secs_f64() * 10.0).round() / 10.0}));
     run.observe_many(&all, &nontrivial);
+    let _ = std::fs::remove_file(&frefs_path);
 }
 
 fn replay_case(run: &Run, sup: &Sup, items: &[menu::Item], case: &Value) {
@@ -1088,9 +1464,23 @@ fn replay_case(run: &Run, sup: &Sup, items: &[menu::Item], case: &Value) {
         o.remove("pattern_digests");
         o.remove("digests");
     }
+    if job["k"] == "fam" {
+        // one entry per family value: show the replayed value only
+        let i = job["only"].as_u64().unwrap_or(0) as usize;
+        shown = json!({"first": v["d1"][i], "second": v["d2"][i], "allocations": v["allocs"][i]});
+    }
+    let v_short = shown.clone();
     println!("replay result: {}", shown);
     let refs: Value = serde_json::from_str(&sup.refs_env.lock().unwrap()).unwrap();
     let failed = match job["k"].as_str().unwrap_or("") {
+        "fam" => {
+            // the value alone in a fresh reference process, against the value alone under the case's
+            // seed / preset (second compilation included)
+            let i = job["only"].as_u64().unwrap_or(0) as usize;
+            let frefs: Vec<String> = std::fs::read_to_string(&*sup.frefs_env.lock().unwrap()).ok().and_then(|s| serde_json::from_str(&s).ok()).unwrap_or_default();
+            let want = frefs.get(i).cloned().unwrap_or_default();
+            v["d1"][i].as_str() != Some(want.as_str()) || v["d2"][i].as_str() != Some(want.as_str())
+        }
         "seed" => {
             let it = job["item"].as_u64().unwrap() as usize;
             v["first"] != refs[it.to_string()] || v["second"] != refs[it.to_string()]
@@ -1098,10 +1488,12 @@ fn replay_case(run: &Run, sup: &Sup, items: &[menu::Item], case: &Value) {
         _ => v["mismatches"].as_array().map(|a| !a.is_empty()).unwrap_or(false) || v["nonmonotone"].as_u64().unwrap_or(0) > 0,
     };
     if failed {
-        let name = job.get("item").and_then(|i| i.as_u64()).map(|i| items[i as usize].name).unwrap_or("");
+        let name = job.get("item").and_then(|i| i.as_u64()).map(|i| items[i as usize].name.to_string())
+            .or_else(|| job.get("only").and_then(|i| i.as_u64()).and_then(|i| family::family().get(i as usize).map(|f| f.name.clone())))
+            .unwrap_or_default();
         run.violation(
             &format!("replayed C07 case {} {}", job["k"], name),
-            &format!("job {job} under seed {seed} again deviates from the reference: {v}"),
+            &format!("job {job} under seed {seed} again deviates from the reference: {v_short}"),
             case.clone(),
         );
     }
